@@ -22,6 +22,7 @@ from aws_durable_execution_sdk_python.concurrency.models import (
 )
 from aws_durable_execution_sdk_python.config import ChildConfig
 from aws_durable_execution_sdk_python.exceptions import (
+    CallableRuntimeError,
     OrphanedChildException,
     SuspendExecution,
     TimedSuspendExecution,
@@ -403,7 +404,7 @@ class ConcurrentExecutor(ABC, Generic[CallableType, ResultType]):
                         BatchItem(
                             executable.index,
                             BatchItemStatus.FAILED,
-                            error=ErrorObject.from_exception(executable.error),
+                            error=self._error_object_of(executable.error),
                         )
                     )
                 case (
@@ -466,6 +467,22 @@ class ConcurrentExecutor(ABC, Generic[CallableType, ResultType]):
             # a branch that raises (e.g. a recorded failure) has been visited too
             child_context.state.track_replay(operation_id=operation_id)
         return result
+
+    @staticmethod
+    def _error_object_of(error: Exception) -> ErrorObject:
+        """The error a failed branch reports: the one recorded in its checkpoint.
+
+        A branch failure reaches the executor as the CallableRuntimeError built from the
+        checkpointed ErrorObject; report that object again, as replay() does, and not the wrapper.
+        """
+        if isinstance(error, CallableRuntimeError):
+            return ErrorObject(
+                message=error.message,
+                type=error.error_type,
+                data=error.data,
+                stack_trace=error.stack_trace,
+            )
+        return ErrorObject.from_exception(error)
 
     def replay(self, execution_state: ExecutionState, executor_context: DurableContext):
         """
